@@ -1,5 +1,9 @@
 /* C20 target 11: cdb_seek (+ cdb_bread of the value, as the callers do) on corrupt constant
    databases.  Real cdb.a of the tree; the file is a memfd.
+   Length monitor: the callers read the value with cdb_bread(fd, buf, dlen) where dlen is the 32-bit
+   length found in the file.  The harness does the same into a 4 GB no-reserve mapping and requires that
+   "success" means dlen bytes were consumed (file offset advanced by dlen); a length that overflowed
+   on the way in (e.g. became negative) shows up as success without reading.
    Input: nkeys(1) { keylen(1) key }*nkeys  <cdb file bytes>.  Keys of the seed corpus are the
    keys really present in the seed databases, so that hits survive light corruption. */
 #define _GNU_SOURCE
@@ -8,6 +12,7 @@
 #include "cdb.h"
 
 static int mfd = -1;
+static char *bigbuf;
 static long seeks, found, notfound, errors, values_read;
 static void report_cdb(void) { fprintf(stderr, "NQVSTAT-CDB seeks=%ld found=%ld notfound=%ld errors=%ld values_read=%ld\n", seeks, found, notfound, errors, values_read); }
 
@@ -17,6 +22,8 @@ int LLVMFuzzerInitialize(int *argc, char ***argv)
   fz_setup("cdb");
   mfd = memfd_create("nqv-cdb", 0);
   if (mfd < 0) { perror("memfd_create"); exit(3); }
+  bigbuf = mmap(0, (1ULL << 32) + 4096, PROT_READ | PROT_WRITE, MAP_PRIVATE | MAP_ANONYMOUS | MAP_NORESERVE, -1, 0);
+  if (bigbuf == MAP_FAILED) { perror("mmap"); exit(3); }
   atexit(report_cdb);
   return 0;
 }
@@ -24,7 +31,6 @@ int LLVMFuzzerInitialize(int *argc, char ***argv)
 int LLVMFuzzerTestOneInput(const uint8_t *data, size_t size)
 {
   const unsigned char *keys[8]; unsigned klen[8]; unsigned nk, i; size_t off = 1;
-  static char val[4096];
   if (size < 1) return 0;
   nk = data[0] & 7;
   for (i = 0; i < nk; i++) {
@@ -42,9 +48,16 @@ int LLVMFuzzerTestOneInput(const uint8_t *data, size_t size)
     free(k);
     seeks++;
     if (r == 1) {
-      unsigned n = dlen > sizeof val ? (unsigned) sizeof val : dlen;
+      off_t p0 = lseek(mfd, 0, SEEK_CUR), p1;
       found++;
-      if (cdb_bread(mfd, val, (int) n) == 0) { values_read++; fz_write(-1, val, n); }
+      if (cdb_bread(mfd, bigbuf, dlen) == 0) {
+        p1 = lseek(mfd, 0, SEEK_CUR);
+        if (p1 - p0 != (off_t) dlen) {
+          fprintf(stderr, "NQV-VIOLATION length/cdb_bread/success-without-reading dlen=%u consumed=%lld\n", (unsigned) dlen, (long long) (p1 - p0));
+          abort();
+        }
+        values_read++; fz_write(-1, bigbuf, dlen > 4096 ? 4096 : dlen);
+      }
     } else if (r == 0) notfound++; else errors++;
   }
   fz_runs++; fz_exits[256]++;
